@@ -18,7 +18,8 @@ def runHandlersOld : List Handler → K → K
 def runHandlerOld : Handler → K → K
   | .pass id, k => fun r t => k r (t ++ [ev id r])
   | .respond id st, _ => fun r t => .done (t ++ [ev id r]) (some st)
-  | .rewrite id p, k => fun r t => k { r with path := p } (t ++ [ev id r])
+  | .rewrite id p, k => fun r t => k { r with path := p, uri := p } (t ++ [ev id r])
+  | .strip, k => fun r t => k { r with path := stripPath r.path, uri := requestLineOf (stripPath r.path) } t
   | .fail id st, _ => fun r t => .err (t ++ [ev id r]) st r
   | .raise src, _ => fun r t => .err t (raiseStatus src r) r
   | .answer src, k => fun r t =>
